@@ -475,9 +475,12 @@ class TracksBuilder(ABC):
         seg_ids = node_props["seg_id"]["values"]
 
         # Check if any seg_id differs from node_id
-        if np.array_equal(seg_ids, node_ids):
+        computed = seg_array.compute()
+        if np.array_equal(seg_ids, node_ids) and np.isin(
+            computed[computed != 0], node_ids
+        ).all():
             # No relabeling needed
-            return seg_array.compute(), scale
+            return computed, scale
 
         # Relabel segmentation: seg_id -> node_id
         time_values = node_props[NodeAttr.TIME.value]["values"]
